@@ -114,6 +114,26 @@ func ruleVD8(c *Ctx) {
 				continue
 			}
 			nsid := c.F.Anchors["newShortID"]
+			// an id that is the new epic's on one path and a caller-named epic's on another (a plan that may extend an
+			// existing epic): each alternative is judged on the path it arrives over
+			if ph, isPhi := strip(ev).(*ssa.Phi); isPhi && ph.Parent() == f {
+				okAll, whyNot := true, ""
+				for i, e := range ph.Edges {
+					if nsid != nil && c.mintedInCallback(e, nsid) {
+						continue
+					}
+					if s, isC := constString(e); isC && s == "" {
+						continue
+					}
+					evc := c.canon(e)
+					if ok, why := c.epicGuardOK(f, ph.Block().Preds[i], evc, c.emptyStringEdges(f, evc)); !ok {
+						okAll, whyNot = false, evc+" "+why
+					}
+				}
+				c.check(okAll, fn, construct, pos, "EpicID is, on every path, the epic minted in this callback or an id looked up in graph.Tasks and tested to be an epic",
+					"a task can be created under "+whyNot+": a task filed under a plain task, an unknown or a pruned id is orphaned")
+				continue
+			}
 			if nsid != nil && valueFromCallTo(ev, nsid) {
 				c.ok(fn, construct, pos, "EpicID is the epic id minted in this same callback (plan)")
 				continue
@@ -1367,6 +1387,14 @@ func (c *Ctx) isUpdateMapProducer(fn *ssa.Function, m ssa.Value) bool {
 }
 
 func (c *Ctx) flowsToBuilder(v ssa.Value, bse *ssa.Function) bool {
+	return c.flowsToBuilderRec(v, bse, map[ssa.Value]bool{})
+}
+
+func (c *Ctx) flowsToBuilderRec(v ssa.Value, bse *ssa.Function, seen map[ssa.Value]bool) bool {
+	if seen[v] {
+		return false // a loop-carried variable: already being followed
+	}
+	seen[v] = true
 	refs := v.Referrers()
 	if refs == nil {
 		return false
@@ -1390,13 +1418,13 @@ func (c *Ctx) flowsToBuilder(v ssa.Value, bse *ssa.Function) bool {
 				}
 			}
 		case *ssa.Phi:
-			if c.flowsToBuilder(x, bse) {
+			if c.flowsToBuilderRec(x, bse, seen) {
 				return true
 			}
 		case *ssa.Store:
 			if cell := cellOf(x.Addr); cell != nil {
 				for _, ld := range cellLoads(cell) {
-					if c.flowsToBuilder(ld, bse) {
+					if c.flowsToBuilderRec(ld, bse, seen) {
 						return true
 					}
 				}
